@@ -123,8 +123,7 @@ class CHECK(core.Check):
                "never returned): repaired by fixes/D05-moot-clone-loop.patch (C14_repaired_clone_worklist_terminates, "
                "C14_repaired_clone_worklist_conservative)",
                "internal errors that remain reachable are listed in Model/Worklist.lean `knownCrashSites` (D67: Store.add's "
-               "bare ValueError for a share path that collides with an existing share or node; D68: IndexError in Act.resolvePath "
-               "for a path that is just `framer`/`frame`/`actor`, fix delivered as fixes/D68-resolvepath-incomplete-relative.patch)"]
+               "bare ValueError for a share path that collides with an existing share or node)"]
     TECHNIQUE = ("Lean 4 theorems (rank / closed-set arguments for the loops, pigeonhole for the repaired loops; decide +kernel "
                  "over the table generated from the source) + differential correspondence on link structures + mutation fuzzing "
                  "of scripts against the stated outcome classes")
@@ -132,7 +131,7 @@ class CHECK(core.Check):
                   "(under descent, over climb with its self-only loop test, clone worklist; counterexamples D6, D64, D5), the "
                   "repaired loops end on every input (C14_repaired_loops_terminate, C14_repaired_clone_worklist_terminates); every message construction of the "
                   "builder-side modules gets as many values as it consumes and no function loads an unbound name "
-                  "(C14_error_messages_well_formed, C14_no_unbound_names, over the table regenerated from the tree: 496 sites); "
+                  "(C14_error_messages_well_formed, C14_no_unbound_names, over the table regenerated from the tree on every run: about 500 sites, the count is in the evidence); "
                   "the exception table of Builder.build. Not proved: that no other statement of building.py raises an internal "
                   "error — that part is a search (mutation fuzzing) with the outcome classes as oracle.")
     LEVEL_NOTE = ("Trusted: Lean kernel; propext, Classical.choice, Quot.sound; the translator (ast extraction); the transcription "
